@@ -639,6 +639,9 @@ class C08(Prop):
             if i % nshards == shard:
                 yield {"hand": list(h), "max_dw": 10, "stop": False}
 
+    def pure_call(self, case):
+        return self.ru.split_melds(list(case["hand"]))[0]
+
     def impl(self, case):
         out = {}
         if case.get("pre"):
@@ -777,6 +780,9 @@ class C12(Prop):
                 c["pre"] = rng.randrange(1, 1 << 16)
             yield c
 
+    def pure_call(self, case):
+        return self.ru.layoff_deadwood(list(case["hand"]), [list(m) for m in case["opp"]], stop_on_zero=case["stop"])[0]
+
     def impl(self, case):
         if case.get("pre"):
             gin.helper_prelude(case["hand"], case["pre"])
@@ -854,6 +860,9 @@ class C19(Prop):
                 i += 1
                 if i % nshards == shard:
                     yield {"hand": list(h)}
+
+    def pure_call(self, case):
+        return self.ku.hand_points(list(case["hand"]))
 
     def impl(self, case):
         if case.get("pre"):
